@@ -2,3 +2,4 @@ import Generated.HelperTable
 import Generated.IoAliases
 import Generated.IoSites
 import Generated.ProxyTable
+import Generated.Sites
